@@ -13,7 +13,9 @@ func header(suite Suite, _ kyber.Point, x kyber.Scalar,
 
 	// Encrypt the master scalar key with each public key in the set
 	S := suite.Point()
-	hdr := xb1
+	// copy: xb1 may be a prefix of the caller's ciphertext, and appending to it
+	// would overwrite the very header this function is used to re-check
+	hdr := append([]byte(nil), xb1...)
 	for i := range anonymitySet {
 		Y := anonymitySet[i]
 		S.Mul(x, Y) // compute DH shared secret
